@@ -88,7 +88,7 @@ func Dump(c *Ctx, what string, w io.Writer) {
 	case "props":
 		type pj struct {
 			ID, Level, Technique, Explanation, DoesNotDecide string
-			Assumptions                                       []string
+			Assumptions                                      []string
 		}
 		var out []pj
 		for _, id := range sortedKeys(Properties) {
